@@ -625,7 +625,12 @@ func generateSpecs(w *World, p *packages.Package, contracts []*FuncContract) (st
 			fi.Ens = append(fi.Ens, g)
 		}
 		for _, c := range fc.Splits {
-			g, err := mk(fmt.Sprintf("vc_%s_split%d", san, c.Ord), "bool", c.Text, false, nil, false)
+			rt := "bool"
+			if c.Kind == "cases" {
+				rt = "int"
+				c.Text = "int(" + c.Text + ")"
+			}
+			g, err := mk(fmt.Sprintf("vc_%s_split%d", san, c.Ord), rt, c.Text, false, nil, false)
 			if err != nil {
 				return "", fmt.Errorf("%s:%d: %v", fc.File, c.Line, err)
 			}
@@ -674,7 +679,12 @@ func generateSpecs(w *World, p *packages.Package, contracts []*FuncContract) (st
 				fi.LoopInv[lc.Ord] = append(fi.LoopInv[lc.Ord], g)
 			}
 			for _, c := range lc.Splits {
-				g, err := mk(fmt.Sprintf("vc_%s_loop%d_split%d", san, lc.Ord, c.Ord), "bool", c.Text, false, st, true)
+				rt := "bool"
+				if c.Kind == "cases" {
+					rt = "int"
+					c.Text = "int(" + c.Text + ")"
+				}
+				g, err := mk(fmt.Sprintf("vc_%s_loop%d_split%d", san, lc.Ord, c.Ord), rt, c.Text, false, st, true)
 				if err != nil {
 					return "", fmt.Errorf("%s:%d: %v", fc.File, c.Line, err)
 				}
